@@ -44,6 +44,8 @@ def plan(tier, seed):
     ch.append({"key": "get_handlers", "kind": "get_handlers", "cost": 50})
     ch.append({"key": "methods/all-commands", "kind": "methods", "cost": 300})
     ch.append({"key": "dispatch/raising-handlers", "kind": "raising", "cost": 300})
+    for i in range(len(LATE_ITEMS)):
+        ch.append({"key": f"dispatch/late-registration/{i}", "kind": "late", "first": i, "cost": 700})
     return ch
 
 
@@ -384,9 +386,9 @@ def expected_for(task, regs):
 def run_dispatch(mask, script, silent):
     """-> None or (signature, expected, observed)"""
     cfg = fresh_config()
-    with Seams():
+    with Seams(uniform_frac=1.0) as sm:
         cl, calls, regs = build_client(mask, script, silent)
-        r = call(cl.run, cfg, dry_run=True, beacon_id=2, user="u", computer="c", process="p", silent=silent, sleeptime=1000, jitter=0)
+        r = call(cl.run, cfg, dry_run=True, beacon_id=2, user="u", computer="c", process="p", silent=silent, sleeptime=3000, jitter=20)
         if isinstance(r, str):
             return "C19/dispatch/setup", "dry run", r
         reg_len_before = {k: len(v) for k, v in cl.task_map.items()}
@@ -398,6 +400,9 @@ def run_dispatch(mask, script, silent):
         except Exception as e:  # noqa
             return "C19/dispatch/loop-exception", "StopLoop", f"{type(e).__name__}: {e}"
         reg_len_after = {k: len(v) for k, v in cl.task_map.items()}
+    # the loop pauses once per check-in, for an interval inside the jitter band (3000 ms, 20 %: 2.4 s .. 3.0 s)
+    if len(sm.slept) != len(script) or any(not (2.4 - 1e-9 <= x <= 3.0 + 1e-9) for x in sm.slept):
+        return "C19/sleep/loop-pause-outside-jitter-band", {"pauses": len(script), "band_seconds": [2.4, 3.0]}, {"pauses": [round(x, 6) for x in sm.slept]}
     for i, t in enumerate(script):
         got = sorted(name for (idx, name) in calls if idx == i)
         exp = expected_for(t, regs)
@@ -603,6 +608,82 @@ def chunk_raising(chunk, acc):
     acc.sample({"handlers": "4 for command A, 3 catch-alls", "failing": "each one in turn: raises / returns a value that cannot be sent as a callback", "oracle": "every other handler of the task still runs exactly once"})
 
 
+LATE_ITEMS = (("task", "A"), ("task", "B"), ("reg", "catchall"), ("reg", "A"), ("reg", "B"))
+
+
+def run_late(script):
+    """Registrations happen between tasks (a handler, a catch-all handler registered while the beacon is running):
+    each task goes to exactly the handlers registered for its command *at that moment* (else the catch-alls)."""
+    from dissect.cobaltstrike import c2
+    from dissect.cobaltstrike.client import HttpBeaconClient
+
+    calls = []
+    state = {"i": -1, "n": 0}
+    registered = {"A": [], "B": [], "catchall": []}
+    expected = {}
+
+    class Cl(HttpBeaconClient):
+        def get_task(self):
+            while True:
+                state["i"] += 1
+                if state["i"] >= len(script):
+                    raise StopLoop()
+                what, arg = script[state["i"]]
+                if what == "reg":
+                    state["n"] += 1
+                    name = f"{arg}#{state['n']}"
+
+                    def h(task, name=name):
+                        calls.append((state["i"], name))
+
+                    if arg == "catchall":
+                        self.catch_all()(h)
+                    else:
+                        self.handle(TASK_CMD[arg])(h)
+                    registered[arg].append(name)
+                    continue
+                expected[state["i"]] = sorted(registered[arg] or registered["catchall"])
+                return make_task(c2, TASK_CMD[arg], state["i"])
+
+        def send_callback(self, callback_id, data):
+            pass
+
+    cfg = fresh_config()
+    with Seams():
+        cl = Cl()
+        r = call(cl.run, cfg, dry_run=True, beacon_id=2, user="u", computer="c", process="p", silent=True, sleeptime=1000, jitter=0)
+        if isinstance(r, str):
+            return "C19/dispatch/setup", "dry run", r
+        try:
+            cl._beacon_loop()
+            return "C19/dispatch/loop-ended", "StopLoop", "returned"
+        except StopLoop:
+            pass
+        except Exception as e:  # noqa
+            return "C19/dispatch/loop-exception", "StopLoop", f"{type(e).__name__}: {e}"
+    for i, exp in expected.items():
+        got = sorted(n for (idx, n) in calls if idx == i)
+        if got != exp:
+            return "C19/dispatch/handler-registered-while-running", {"step": i, "task": script[i][1], "handlers": exp}, {"step": i, "invoked": got}
+    return None
+
+
+def chunk_late(chunk, acc):
+    depth = 5 if acc.tier == "quick" else 6
+    first = LATE_ITEMS[chunk["first"]]
+    for rest in sequences(LATE_ITEMS, depth - 1):
+        script = (first,) + rest
+        if not any(w == "task" for w, _ in script):
+            continue
+        acc.states += 1
+        acc.transitions += len(script)
+        bad = run_late(script)
+        acc.case(("late", script), nontrivial=True, outcome=bad[0] if bad else len(script))
+        if bad:
+            acc.fail(bad[0], {"kind": "late", "script": [list(x) for x in script]}, bad[1], bad[2])
+    acc.sample({"items": [list(x) for x in LATE_ITEMS], "depth": depth, "oracle": "handlers registered at the moment the task arrives"})
+
+
 def run_chunk(chunk, acc):
     globals()["chunk_" + chunk["kind"]](chunk, acc)
 
@@ -611,6 +692,9 @@ def replay(case):
     from vmc.runner import Acc
 
     a = Acc("replay", "quick", 0)
+    if case["kind"] == "late":
+        bad = run_late(tuple(tuple(x) for x in case["script"]))
+        return {"ok": bad is None, "expected": bad[1] if bad else None, "observed": bad[2] if bad else None}
     if case["kind"] == "raising":
         how = case["how"]
         how = {"raise": "raise", "5": 5, "(1,)": (1,), "('x', 'y', 'z')": ("x", "y", "z")}[how]
